@@ -23,6 +23,11 @@ if os.environ.get("VERIF_NO_EVIDENCE"):
 KNOWN = os.path.join(VERIF, "known_findings.json")
 
 
+def dbg(*a):
+    if os.environ.get("VERIF_DEBUG"):
+        print(f"[{time.strftime('%H:%M:%S')}]", *a, file=sys.stderr, flush=True)
+
+
 def load_known():
     try:
         with open(KNOWN) as f:
@@ -76,11 +81,16 @@ class Check:
         self.functions[ref.ident] = ref.describe()
 
     def prove(self, group, harness, ex=None, replay=None, targets=()):
-        """Explore ``harness`` (one call per path), collect its obligations under
-        ``<prop>.<group>.<label>``.  ``replay(model) -> (reproduced, witness, cls)``."""
+        """Explore ``harness`` (one call per path) and discharge its obligations, collected
+        under ``<prop>.<group>.<label>``.  ``replay(model, name) -> (reproduced, witness, cls)``.
+        Phase 1 enumerates the feasible paths (dry run: decisions only); phase 2 re-executes
+        every path, emits its VCs and discharges them in the same process (z3 API, no text),
+        in parallel over the paths."""
         ex = ex or Explorer()
         for t in targets:
             self.under_contract(t)
+        dbg("enumerate paths", group)
+        ex.dry = True
         try:
             results = ex.explore(harness)
         except Undecided as u:
@@ -89,40 +99,81 @@ class Check:
         except source.SourceError as e:
             self.undecided.append((f"{self.prop}.{group}", f"source: {e}"))
             return ex
+        finally:
+            ex.dry = False
+        scripts = [(r.n, r.script) for r in results]
+        dbg("paths", group, len(scripts))
+        global _PROVE_CTX
+        _PROVE_CTX = (ex, harness, self.prop, group, self.budget_ms)
+        import multiprocessing as mp
+        outs = []
+        if len(scripts) > 3 and not mp.current_process().daemon:
+            ctx = mp.get_context("fork")
+            with ctx.Pool(processes=min(solve.WORKERS, len(scripts))) as pool:
+                outs = pool.map(_prove_path, scripts, chunksize=1)
+        else:
+            outs = [_prove_path(sc) for sc in scripts]
+        dbg("paths done", group)
         ok_paths = 0
         reachable = False
-        for r in results:
+        for o in outs:
             self.paths += 1
-            if r.status == "undecided":
-                self.undecided.append((f"{self.prop}.{group}@path{r.n}", r.why))
+            if o["status"] == "undecided":
+                self.undecided.append((f"{self.prop}.{group}@path{o['n']}", o["why"]))
                 continue
-            if r.status == "ok":
+            if o["status"] == "crash":
+                self.crashes.append(f"{self.prop}.{group}@path{o['n']}: {o['why']}")
+                continue
+            if o["status"] == "ok":
                 ok_paths += 1
-                if not reachable:
-                    s = z3.Solver()
-                    s.set("timeout", 3000)
-                    s.add(*r.pc)
-                    # vacuous only if *every* complete path has an unsatisfiable pc
-                    if s.check() != z3.unsat:
-                        reachable = True
-            for name in r.trivial:
+                reachable = reachable or o["reachable"]
+            for name in o["trivial"]:
                 full = f"{self.prop}.{group}.{name}"
                 self.trivial[full] = self.trivial.get(full, 0) + 1
-            for name, pc, goal, meta in r.vcs:
-                full = f"{self.prop}.{group}.{name}"
-                vc = solve.VC(full, pc, goal, list(r.inputs.keys()), path_id=r.n, meta=meta)
-                vc.meta["group"] = group
+            for rec in o["vcs"]:
+                vc = solve.solved_vc(f"{self.prop}.{group}.{rec['name']}", rec["status"], rec["solver"], rec["ms"], rec["model"],
+                                     rec["detail"], dict(rec["meta"] or {}, group=group), o["n"], rec["smt2"], o["inputs"])
                 self.vcs.append(vc)
+            self.trusted |= o["used_models"]
+            self.trusted |= {"contract:" + c for c in o["used_contracts"]}
+            self.dropped |= o["dropped"]
+            self.loop_cuts += o["loop_cuts"]
         if replay:
             self.vc_replay[f"{self.prop}.{group}."] = replay
         if ok_paths == 0 or not reachable:
             self.vacuity.append(f"{self.prop}.{group}: no satisfiable complete path (vacuous contract or everything cut)")
-        self.trusted |= ex.used_models
-        self.trusted |= {"contract:" + c for c in ex.used_contracts}
-        self.dropped |= ex.dropped
         self.inlined |= ex.inline
-        self.loop_cuts += ex.loop_cuts
         return ex
+
+    def fork_map(self, tasks, procs=8):
+        """run independent groups of obligations in forked child processes (each explores
+        and discharges its own VCs) and merge the results; replay callbacks stay here"""
+        import multiprocessing as mp
+        ctx = mp.get_context("fork")
+        _FORK_FNS.clear()
+        for i, (label, fn) in enumerate(tasks):
+            _FORK_FNS[i] = fn           # children inherit the table through fork
+        dbg("fork_map", [t[0] for t in tasks])
+        with ctx.Pool(processes=min(procs, len(tasks))) as pool:
+            results = pool.map(_fork_task, [(self.prop, self.tier, self.seed, self.budget_ms, label, i) for i, (label, fn) in enumerate(tasks)], chunksize=1)
+        dbg("fork_map done")
+        for r in results:
+            self.vcs += r["vcs"]
+            for k, v in r["trivial"].items():
+                self.trivial[k] = self.trivial.get(k, 0) + v
+            self.static_obs += r["static_obs"]
+            self.failures += r["failures"]
+            self.undecided += r["undecided"]
+            self.crashes += r["crashes"]
+            self.vacuity += r["vacuity"]
+            self.functions.update(r["functions"])
+            self.trusted |= r["trusted"]
+            self.dropped |= r["dropped"]
+            self.inlined |= r["inlined"]
+            self.paths += r["paths"]
+            self.loop_cuts += r["loop_cuts"]
+            self.bounded.update(r["bounded"])
+            self.extra.update(r["extra"])
 
     def lemma(self, name, assumptions, goal, inputs=()):
         """A lemma over contracts (no code): assumptions |- goal."""
@@ -156,7 +207,9 @@ class Check:
                 solve._pool = None
 
     def _finish(self):
+        dbg("discharging", len(self.vcs), "VCs")
         solve.discharge(self.vcs, self.budget_ms)
+        dbg("discharged; unknown:", sum(1 for v in self.vcs if v.status == "unknown"))
         # retry unknowns once with a larger budget (load on the machine must not flip verdicts)
         unk = [v for v in self.vcs if v.status == "unknown"]
         if unk:
@@ -198,6 +251,12 @@ class Check:
                     except Exception:  # noqa: BLE001
                         self.crashes.append(f"replay of {v.name} crashed: {traceback.format_exc()}")
                 extra = {k: x for k, x in (v.meta or {}).items() if k not in ("group", "schema_instances", "truncated")}
+                if not reproduced and (v.meta or {}).get("schema_instances"):
+                    # the counter-model satisfies only the *instantiated* hypotheses: it is a candidate;
+                    # not reproduced on the real code => the obligation is undecided, not a violation
+                    self.undecided.append((v.name, f"candidate counter-model (quantified hypotheses instantiated at "
+                                                   f"{v.meta.get('schema_instances')} terms) not reproduced on the real code {extra if extra else ''}"))
+                    continue
                 self.failures.append(Failure(v.name, "refuted", f"counter-model from {v.solver} {extra if extra else ''}", witness, cls,
                                              reproduced, solver_output=json.dumps(v.model, default=str)[:2000]))
             elif v.status == "unknown":
@@ -325,6 +384,71 @@ class Check:
               f"static={len(self.static_obs)} undecided={len(self.undecided)} violations={len(violations)} "
               f"known={len(known_hits)} solver_s={solver_ms/1000:.1f} wall_s={wall:.1f} exit={rc}")
         return rc
+
+
+_FORK_FNS = {}
+_PROVE_CTX = None
+
+
+def _prove_path(item):
+    """phase 2 of Check.prove for one path: re-execute, emit VCs, discharge them here"""
+    n, script = item
+    ex, harness, prop, group, budget = _PROVE_CTX
+    ex.used_models, ex.used_contracts, ex.dropped, ex.loop_cuts = set(), set(), set(), 0
+    try:
+        r = ex.run_script(harness, script, n)
+    except Exception:  # noqa: BLE001
+        return {"n": n, "status": "crash", "why": traceback.format_exc()[-600:]}
+    out = {"n": n, "status": r.status, "why": r.why, "trivial": list(r.trivial), "vcs": [], "inputs": list(r.inputs.keys()),
+           "reachable": False, "used_models": set(ex.used_models), "used_contracts": set(ex.used_contracts),
+           "dropped": set(ex.dropped), "loop_cuts": ex.loop_cuts}
+    if r.status == "ok":
+        s = z3.Solver()
+        s.set("timeout", 3000)
+        s.set("rlimit", 5000000)
+        s.add(*r.pc)
+        try:
+            out["reachable"] = s.check() != z3.unsat      # vacuous only if the pc is unsatisfiable
+        except z3.Z3Exception:
+            out["reachable"] = True
+    keep_text = n <= 2
+    for name, hyps, goal, meta in r.vcs:
+        st, solver, ms, model, detail, smt2 = solve.solve_terms(hyps, goal, out["inputs"], budget)
+        if st == "unknown":
+            st, solver, ms2, model, detail, smt2b = solve.solve_terms(hyps, goal, out["inputs"], budget * 4)
+            ms += ms2
+            smt2 = smt2 or smt2b
+        if keep_text and smt2 is None and len(out["vcs"]) < 2:
+            sv = z3.Solver()
+            sv.add(*hyps)
+            sv.add(z3.Not(goal))
+            smt2 = sv.to_smt2()
+        out["vcs"].append({"name": name, "status": st, "solver": solver, "ms": ms, "model": model, "detail": detail,
+                           "meta": meta, "smt2": smt2 if (keep_text or st != "unsat") else None})
+    return out
+
+
+def _fork_task(args):
+    prop, tier, seed, budget, label, idx = args
+    fn = _FORK_FNS[idx]
+    sub = Check(prop, tier, seed)
+    try:
+        fn(sub)
+    except source.SourceError as e:
+        sub.undecided.append((f"{prop}.{label}", f"source: {e}"))
+    except Exception:  # noqa: BLE001
+        sub.crashes.append(f"group {label} crashed: " + traceback.format_exc()[-600:])
+    # pool workers are daemonic (no grandchildren): the group's VCs are solved in this process
+    solve.discharge(sub.vcs, budget, serial=True)
+    unk = [v for v in sub.vcs if v.status == "unknown"]
+    if unk:
+        for v in unk:
+            v.status = None
+        solve.discharge(unk, budget * 4, serial=True)
+    return {"vcs": sub.vcs, "trivial": sub.trivial, "static_obs": sub.static_obs, "failures": sub.failures,
+            "undecided": sub.undecided, "crashes": sub.crashes, "vacuity": sub.vacuity, "functions": sub.functions,
+            "trusted": sub.trusted, "dropped": sub.dropped, "inlined": sub.inlined, "paths": sub.paths,
+            "loop_cuts": sub.loop_cuts, "bounded": sub.bounded, "extra": sub.extra}
 
 
 def main(argv=None):
